@@ -135,6 +135,9 @@ def monitors(case, real, want):
     progs = {}
     user_files = {}            # file id -> token written by the user (files redo must never touch)
     hidden = {}
+    converted = set()          # targets that redo legitimately turned into sources: a build found the file present and
+                               # no .do candidate for it ("if you remove the .do, the target becomes a source"); from then
+                               # on the file stands for itself (C11: redo must not overwrite it) until the user removes it
     prev = None
     wb = well_behaved(case)
     last_ood = None
@@ -145,13 +148,14 @@ def monitors(case, real, want):
             out.append(("C09", "redo process aborted (panic) during %r" % (o,), i))
         if k == "p":
             progs[o[1]] = o[2]
-        elif k in ("w", "wp"):
+        elif k in ("w", "wp", "ws"):
             user_files[o[1]] = str(2 * o[2] + 3)
             last_ood = None
         elif k in ("r", "h"):
             if k == "h" and o[1] in user_files:
                 hidden[o[1]] = user_files[o[1]]
             user_files.pop(o[1], None)
+            converted.discard(o[1])
             last_ood = None
         elif k == "u":
             if o[1] in hidden and o[1] not in user_files and s["fs"].get(o[1]) == hidden[o[1]]:
@@ -174,6 +178,11 @@ def monitors(case, real, want):
             out.append(("C10", "command %r did not terminate (blocked by state left behind?)" % (o,), i))
         if k == "crash":
             last_ood = None
+        if k in ("redo", "ifc", "crash") and prev is not None:
+            before = prev["fs"]
+            for t in closure(case, before, progs, o[1], set(user_files) | converted):
+                if t in case.rules and before.get(t) is not None and not any(before.get(c) is not None for c in case.rules[t]):
+                    converted.add(t)
         if k in ("redo", "ifc"):
             ts = o[1]
             ran = s["ran"]
@@ -184,9 +193,9 @@ def monitors(case, real, want):
                 out.append(("C05", "a script ran more than once in one run: %r" % ran, i))
             if s["rv"] == 0 and wb:
                 # C01: every target in the closure has from-scratch content
-                for t in sorted(closure(case, s["fs"], progs, ts, set(user_files))):
+                for t in sorted(closure(case, s["fs"], progs, ts, set(user_files) | converted)):
                     if t in case.rules:
-                        r = oracle_content(case, s["fs"], progs, t, set(user_files))
+                        r = oracle_content(case, s["fs"], progs, t, set(user_files) | converted)
                         if r[0] == "ok" and s["fs"].get(t) != r[1] and not (r[1] is None and s["fs"].get(t) is None):
                             out.append(("C01", "after %r exit 0, target %s (%s) holds %r but a from-scratch build gives %r" % (o, t, case.names[t], s["fs"].get(t), r[1]), i))
                         elif r[0] == "fail":
@@ -195,7 +204,7 @@ def monitors(case, real, want):
             if s["rv"] != 0 and o[2] and wb:
                 for t in ts:
                     if t in case.rules:
-                        r = oracle_content(case, s["fs"], progs, t, set(user_files))
+                        r = oracle_content(case, s["fs"], progs, t, set(user_files) | converted)
                         if r[0] == "ok" and s["fs"].get(t) != r[1]:
                             out.append(("C05", "with --keep-going, requested target %s (%s) does not depend on a failing script but was not (re)built by %r: holds %r, expected %r" % (t, case.names[t], o, s["fs"].get(t), r[1]), i))
             # C05 stop: without -k nothing is started after the first failure is known (serial engine: the
@@ -258,7 +267,7 @@ def overbuild_monitor(case, real):
         k = o[0]
         if k == "p":
             progs[o[1]] = o[2]
-        elif k in ("w", "wp", "r", "h", "u", "m"):
+        elif k in ("w", "wp", "ws", "r", "h", "u", "m"):
             last_touched[o[1]] = i
         elif k == "crash":
             last_ok.clear()
